@@ -927,8 +927,10 @@ class RealTree(object):
             if n is not None:
                 netgroup = group.get(':' + n)
                 changroup = netgroup.get(c)
+                netgroup()
                 changroup._setValue(netgroup.value, inherited=True)
             changroup = group.get(c)
+            group()
             changroup._setValue(group.value, inherited=True)
             return 'done'
         return self.guarded(f)
@@ -936,6 +938,7 @@ class RealTree(object):
         def f():
             group = self.node
             changroup = group.get(':' + n)
+            group()
             changroup._setValue(group.value, inherited=True)
             return 'done'
         return self.guarded(f)
